@@ -1070,6 +1070,8 @@ FIXED = [
      "class Owner(db.Entity):\n    pets = Set('Pet')\nclass Pet(db.Entity):\n    owner = Required(Owner)\nclass Other(db.Entity):\n    _table_ = 'fk_pet__owner'\n    x = Required(int)\n"),
     ('foreign-key-explicit-name-like-index-and-table',
      "class Owner(db.Entity):\n    tag = Required(int, index='shared_name')\n    pets = Set('Pet')\nclass Pet(db.Entity):\n    owner = Required(Owner, fk_name='shared_name')\n"),
+    ('indexed-attribute-inside-composite-key',
+     "class Alpha(db.Entity):\n    a = Required(int, index=True)\n    b = Required(int)\n    c = Optional(str, index='ix_c')\n    composite_key(a, b)\n    composite_index(b, c)\n"),
     ('symmetric-m2m-table-collides-with-other-link-table',
      "class Node(db.Entity):\n    peers = Set('Node', reverse='peers', table='Edges')\n    inc = Set('Node', reverse='out')\n    out = Set('Node', reverse='inc', table='Edges')\n"),
 ]
